@@ -18,7 +18,7 @@ vars == <<desc, term, dense, pc>>
 N == 4
 Cls == <<"Dense", "Diag", "ConstDiag", "Identity", "Toeplitz", "Chol", "Kron", "KronDiag", "KronAddedDiag", "SumKron", "AddedDiag",
          "LRRAddedDiag", "Sum", "PsdSum", "ConstMul", "BlockDiag", "BlockInter", "BatchRepeat", "Tri", "AddedDiagI", "LRRAddedDiagI", "User",
-         "AddedDiagRootConst", "AddedDiagBig", "DenseBig", "KronCholU", "BlockDiagCholU", "CholKronTriU">>
+         "AddedDiagRootConst", "AddedDiagBig", "DenseBig", "KronCholU", "BlockDiagCholU", "CholKronTriU", "TriRepeat", "AddedDiagKBc">>
 \* matrix size per class: the "Big" families are large enough for CG / Lanczos to need more than 10 iterations
 NOf(c) == IF c = "AddedDiagBig" THEN 24 ELSE IF c = "DenseBig" THEN 12 ELSE 4
 Batches == << <<>>, <<2>> >>
@@ -32,7 +32,7 @@ CfgId(c) == (IF c.max_chol = 0 THEN 1 ELSE 0) + (IF c.fast_solves THEN 2 ELSE 0)
 
 \* ---- LOSelect ------------------------------------------------------------------------------------------
 SolvePath(cls, n, c) ==
-  IF cls \in {"Chol", "Tri", "CholKronTriU"} THEN "class-shortcut"
+  IF cls \in {"Chol", "Tri", "CholKronTriU", "TriRepeat"} THEN "class-shortcut"
   ELSE IF ~c.fast_solves \/ n <= c.max_chol THEN "cholesky"
   ELSE IF c.precond THEN "cg+preconditioner-if-any" ELSE "cg"
 LogdetPath(cls, n, c) ==
@@ -46,7 +46,7 @@ Init ==
   /\ \E ci \in 1..Len(Cls), bi \in 1..Len(Batches), c0 \in Cfgs : LET c == EffCfg(Cls[ci], c0) IN
        /\ ((ci * 7 + bi + CfgId(c)) % NParts = Part)
        /\ (Tier = "quick" => ((ci + bi + CfgId(c)) % 4 = 0 \/ CfgId(c) \in {0, 63 - 32, 3 + 4}
-                              \/ (Cls[ci] \in {"AddedDiagRootConst", "AddedDiagBig", "DenseBig", "KronCholU", "BlockDiagCholU", "CholKronTriU"} /\ CfgId(c) % 2 = 1 /\ ~c.memory_efficient)
+                              \/ (Cls[ci] \in {"AddedDiagRootConst", "AddedDiagBig", "DenseBig", "KronCholU", "BlockDiagCholU", "CholKronTriU", "AddedDiagKBc"} /\ CfgId(c) % 2 = 1 /\ ~c.memory_efficient)
                               \/ (Cls[ci] \in {"AddedDiagBig", "DenseBig"} /\ CfgId(c) \in {6, 14, 22})))
        /\ desc = [cls |-> Cls[ci], b |-> Batches[bi], cfg |-> c, cfgid |-> CfgId(c), id |-> (ci * 4 + bi) * 64 + CfgId(c),
                   dt |-> IF (ci + CfgId(c)) % 3 = 0 THEN "f32" ELSE "f64", seed |-> ci * 13 + bi * 5,
@@ -87,6 +87,6 @@ Next == Construct \/ Emit
 Spec == Init /\ [][Next]_vars
 
 \* the generated instances are symmetric positive definite (so that every query is defined): checked on every state
-InvPD == (pc >= 1 /\ desc.cls # "Tri" /\ desc.n <= 4) => (T_IsSymmetric(dense) /\ \A k \in 1..T_Prod(T_Batch(dense.shape)) :
+InvPD == (pc >= 1 /\ desc.cls \notin {"Tri", "TriRepeat"} /\ desc.n <= 4) => (T_IsSymmetric(dense) /\ \A k \in 1..T_Prod(T_Batch(dense.shape)) :
                         R_IsPD(R_Rows(dense, T_Unravel(k - 1, T_Batch(dense.shape)))))
 =============================================================================
